@@ -17,6 +17,7 @@ import (
 	_ "verif.local/sim/props/c12"
 	_ "verif.local/sim/props/c13"
 	_ "verif.local/sim/props/c14"
+	_ "verif.local/sim/props/c15"
 	_ "verif.local/sim/props/c17"
 )
 
